@@ -1,6 +1,7 @@
 package c16
 
 import (
+	"strings"
 	"fmt"
 
 	"github.com/ipld/go-ipld-prime/datamodel"
@@ -71,6 +72,51 @@ func typedPaths(root datamodel.Node) (out []datamodel.Path) {
 	return
 }
 
+// refPaths: the positions of typed value v by the schema's own account (struct fields by name, union
+// members by type name, list elements by index, map entries by the representation string of their
+// key), independent of how the library's walks name them.
+func refPaths(s *rs.Schema, t *rs.Type, v ref.Val, prefix []string, out *[][]string) {
+	if len(*out) >= typedPathsCap {
+		return
+	}
+	*out = append(*out, append([]string(nil), prefix...))
+	if v.K == ref.KNull || v.K == ref.KAbsent {
+		return
+	}
+	sub := func(seg string, ct *rs.Type, cv ref.Val) {
+		if cv.K == ref.KAbsent || cv.K == ref.KLink {
+			return
+		}
+		refPaths(s, ct, cv, append(append([]string(nil), prefix...), seg), out)
+	}
+	switch t.Kind {
+	case rs.TStruct:
+		for i, f := range t.Fields {
+			if i < len(v.M) {
+				sub(f.Name, s.T(f.Type), v.M[i].V)
+			}
+		}
+	case rs.TUnion:
+		if len(v.M) == 1 {
+			sub(v.M[0].K, s.T(v.M[0].K), v.M[0].V)
+		}
+	case rs.TList:
+		for i, c := range v.L {
+			sub(fmt.Sprint(i), s.T(t.ValType), c)
+		}
+	case rs.TMap:
+		for _, e := range v.M {
+			seg := e.K
+			if t.KeyType != "" && t.KeyType != "String" && s.T(t.KeyType).Kind == rs.TEnum {
+				if r, ok := s.Repr(s.T(t.KeyType), ref.Str(e.K)); ok && r.K == ref.KString {
+					seg = r.S
+				}
+			}
+			sub(seg, s.T(t.ValType), e.V)
+		}
+	}
+}
+
 func CheckTyped(s *rs.Schema, t *rs.Type, c TCase) (fs []core.Finding, n int) {
 	root := buildTyped(s, t, c.Value)
 	if root == nil {
@@ -116,6 +162,15 @@ func CheckTyped(s *rs.Schema, t *rs.Type, c TCase) (fs []core.Finding, n int) {
 	return
 }
 
+func anyEmpty(segs []string) bool {
+	for _, sg := range segs {
+		if sg == "" {
+			return true
+		}
+	}
+	return false
+}
+
 func typedTransforms(r *core.Run, quick bool) {
 	type job struct {
 		s *rs.Schema
@@ -145,12 +200,23 @@ func typedTransforms(r *core.Run, quick bool) {
 				// (the walking transform follows links, and these values' links lead nowhere)
 				cases = append(cases, TCase{Schema: s.Name, Type: t.Name, Value: v, Walk: true})
 			}
+			seenPath := map[string]bool{}
 			for _, p := range typedPaths(root) {
 				var segs []string
 				for _, sg := range p.Segments() {
 					segs = append(segs, sg.String())
 				}
+				seenPath[strings.Join(segs, "\x00/")] = true
 				cases = append(cases, TCase{Schema: s.Name, Type: t.Name, Value: v, Path: segs})
+			}
+			// the same positions by the schema's account (an enum-keyed entry by the key's representation
+			// string), whatever the library's own walk calls them
+			var rp [][]string
+			refPaths(s, t, v, nil, &rp)
+			for _, segs := range rp {
+				if !seenPath[strings.Join(segs, "\x00/")] && !anyEmpty(segs) {
+					cases = append(cases, TCase{Schema: s.Name, Type: t.Name, Value: v, Path: segs})
+				}
 			}
 			for _, c := range cases {
 				fs, n := CheckTyped(s, t, c)
